@@ -562,6 +562,14 @@ func c20RunHistoryCase(c *lib.Ctx, d c20Dir, cs c20Case, reply string, st *c20St
 	for _, f := range c20ParseForms(mem0) {
 		universe[f.wire()] = true
 	}
+	if cs.Tmp0 != nil {
+		// what a stale history.tmp holds was entered in an earlier session: if it shows up it is resurrected
+		for _, l := range strings.Split(*cs.Tmp0, "\n") {
+			if l != "" {
+				universe[c20Form(strings.Split(l, "\t")).wire()] = true
+			}
+		}
+	}
 	if got := c20FormsWire(c20HistForms(h)); got != mem0 {
 		return problem(-1, "restart", "final", c20Aspect(c20HistForms(h), c20ParseForms(mem0), universe),
 			"loaded "+c20ShowForms(c20HistForms(h)), "loaded "+c20ShowForms(c20ParseForms(mem0)), "model:hist.run (Load of the initial file)")
